@@ -416,7 +416,9 @@ theorem Cfg.t46_hApply_M (c : Cfg) (k : List Frame) (r e : Nat) (rest : List Nat
   split <;> exact St.T46M.geTasksCheck (St.t46_applyValue_M c.st r e v hg) r e
 
 theorem Cfg.t46_invoke_M (c : Cfg) (k : List Frame) (r h e : Nat)
-    (hd : ∀ w, (c.st.handler h).kind = .waitDone w → (c.st.wait w).started = true ∧ (c.st.wait w).flag = false)
+    (hd : ∀ w, (c.st.handler h).kind = .waitDone w → (c.st.wait w).started = true ∧ ((c.st.wait w).flag = true →
+      (⟨(c.st.wait w).taskEvent, (c.st.wait w).task, some (c.st.wait w).parentGen⟩ : Task) ∈
+        (c.st.comp (c.st.rootOf (c.st.wait w).owner)).tasks))
     (ht : ∀ w, (c.st.handler h).kind = .waitTick w → (c.st.wait w).started = true) :
     St.T46M c.st (c.invoke k r h e).st := by
   unfold Cfg.invoke
@@ -425,6 +427,8 @@ theorem Cfg.t46_invoke_M (c : Cfg) (k : List Frame) (r h e : Nat)
       c.st.logE (Entry.hinv e (c.st.handler h).kind.code (hkey c.st (c.st.handler h))) else c.st) = S
   have hSM : St.T46M c.st S := by subst hS; t46m
   have hSw : ∀ w, S.wait w = c.st.wait w := by subst hS; intro w; split <;> rfl
+  have hSc : ∀ x, S.comp x = c.st.comp x := by subst hS; intro x; split <;> rfl
+  have hSr : ∀ x, S.rootOf x = c.st.rootOf x := by subst hS; intro x; split <;> rfl
   split
   · exact Cfg.invokeUser_t46m c k S h e _ _ hSM
   · simp only [Cfg.goto_st]; t46m
@@ -432,7 +436,7 @@ theorem Cfg.t46_invoke_M (c : Cfg) (k : List Frame) (r h e : Nat)
   · rename_i w hk
     simp only [Cfg.popRet_st]
     obtain ⟨h1, h2⟩ := hd w hk
-    exact hSM.trans (St.t46_onWaitDone_M S w e (by rw [hSw]; exact h1) (by rw [hSw]; exact h2))
+    exact hSM.trans (St.t46_onWaitDone_M S w e (by rw [hSw]; exact h1) (by rw [hSw, hSr, hSc]; exact h2))
   · rename_i w hk
     simp only [Cfg.popRet_st]
     exact hSM.trans (St.t46_onWaitTick_M S w (by rw [hSw]; exact ht w hk))
